@@ -263,6 +263,18 @@ def judge(res: Result, b: bytes, src: str) -> str:
     s = G["service"]
     res.count("evaluations")
     rp = {"mode": "bytes", "hex": b.hex(), "src": src}
+    # the static entry point (<ResponseClass>.parse_static, used by the discovery scanners): whatever it accepts re-encodes identically
+    k0 = T.find("rsp", b) if b[:1] != b"\x7f" else None
+    if k0 is not None and k0.rsp_cls and hasattr(s, k0.rsp_cls) and hasattr(getattr(s, k0.rsp_cls), "parse_static"):
+        try:
+            o = getattr(s, k0.rsp_cls).parse_static(b)
+            p0: bytes | None = o.pdu
+        except Exception:  # noqa: BLE001  (rejection is always admissible)
+            p0 = None
+        if p0 is not None:
+            res.count("parse_static_accepted")
+            if p0 != b:
+                res.violate(f"C02|{k0.rsp_cls}|parse_static|re-encode-differs", f"{k0.rsp_cls}.parse_static({b.hex()[:60]}) accepts and re-encodes as {p0.hex()[:60]}", rp)
     try:
         r = s.UDSResponse.parse_dynamic(b)
     except Exception:  # noqa: BLE001  (rejection is always admissible)
